@@ -9,5 +9,6 @@ import WrapModel.Model.Hex
 import WrapModel.Model.Inst
 import WrapModel.Model.IDump
 import WrapModel.Model.Pybind
+import WrapModel.Model.Matlab.Cpp
 import WrapModel.Model.Driver
 import WrapModel.Props.C01
